@@ -321,7 +321,7 @@ func infeasible(atoms []PathAtom) bool {
 	ls := last.Cond.String()
 	lp := pure(last.Cond)
 	for _, a := range atoms[:len(atoms)-1] {
-		if a.Pos != last.Pos && a.Cond.String() == ls && (lp || (a.Cond.V != nil && a.Cond.V == last.Cond.V)) {
+		if a.Pos != last.Pos && a.Cond.String() == ls && (lp || (a.Cond.V != nil && a.Cond.V == last.Cond.V) || sameInstance(a.Cond, last.Cond)) {
 			return true
 		}
 	}
@@ -440,3 +440,35 @@ func LoopName(ph *ssa.Phi) string {
 
 // LoopSym is the canonical string of the loop symbol for ph.
 func LoopSym(ph *ssa.Phi) string { return "loop:" + LoopName(ph) }
+
+// sameInstance reports whether two structurally equal expressions denote the
+// same runtime value: every impure node (call, receive, unknown) is the very
+// same SSA instruction in both.
+func sameInstance(a, b *Expr) bool {
+	if a == nil || b == nil {
+		return a == b
+	}
+	if a.Op != b.Op || a.Name != b.Name || len(a.Args) != len(b.Args) || a.Idx != b.Idx {
+		return false
+	}
+	switch a.Op {
+	case OpCall:
+		if !pureCall(a) && (a.V == nil || a.V != b.V) {
+			return false
+		}
+	case OpRecv, OpUnknown:
+		if a.V == nil || a.V != b.V {
+			return false
+		}
+	case OpLoop:
+		if a.Idx == 0 {
+			return false
+		}
+	}
+	for i := range a.Args {
+		if !sameInstance(a.Args[i], b.Args[i]) {
+			return false
+		}
+	}
+	return true
+}
